@@ -36,7 +36,7 @@ import (
 
 // Op is one generated operation.
 type Op struct {
-	K string `json:"k"` // query add delete update list par
+	K string `json:"k"` // query add delete update list save par
 	// query
 	Name  string `json:"name,omitempty"`
 	Qt    uint16 `json:"qt,omitempty"`
@@ -57,6 +57,10 @@ type Op struct {
 	Pct  int    `json:"pct,omitempty"`
 	LogY bool   `json:"logy,omitempty"`
 	Lst  bool   `json:"lst,omitempty"`
+	// Sav (par): the configuration is also saved (as after a change of any
+	// other setting) by a task of its own, which arrives after Sav-1 scheduling
+	// points.
+	Sav int `json:"sav,omitempty"`
 	// Dly (sub-operation of par): the task arrives late, after this many
 	// scheduling points of its own.
 	Dly int `json:"dly,omitempty"`
@@ -240,7 +244,11 @@ func Gen(t *rapid.T, tier string) any {
 	for i, n := 0, rapid.IntRange(1, maxOps).Draw(t, "n_ops"); i < n; i++ {
 		var op Op
 		switch k := rapid.IntRange(0, 99).Draw(t, "kind"); {
-		case k < 67:
+		case k >= 64 && k < 67:
+			// The configuration file is written (a setting of another component
+			// was changed, say).
+			op = Op{K: "save"}
+		case k < 64:
 			op = Op{K: "query",
 				Name:  flipCase(t, genQName(t, allNames)),
 				Qt:    rapid.SampledFrom(qtypes).Draw(t, "qtype"),
@@ -354,6 +362,10 @@ type runner struct {
 	// abandon: a concurrent phase ended in a deadlock; the parked tasks hold the
 	// node's locks for ever, so the node is not closed.
 	abandon bool
+	// saves counts the configuration saves not yet moved to the evidence; saved
+	// says that the configuration has been saved at least once.
+	saves atomic.Int64
+	saved bool
 }
 
 func (r *runner) api(method, path string, body any) (code int, resp []byte, err error) {
@@ -370,6 +382,30 @@ func (r *runner) api(method, path string, body any) (code int, resp []byte, err 
 	}
 	r.c.Eventf("api %s %s %s -> %d", method, path, b, code)
 	return code, resp, nil
+}
+
+// save is what package home does whenever a component reports a modified
+// configuration (and whenever any other setting is changed): the configuration
+// is collected from the components again and written to the file.  The
+// filtering module is asked to fill in the very object it was created with,
+// as home's config.write does with config.Filtering.
+func (r *runner) save() {
+	n := r.n
+	if n == nil || n.Filter == nil || n.Server == nil {
+		// (A component under construction.)
+		return
+	}
+	n.Filter.WriteDiskConfig(n.FilterConf)
+	n.Server.WriteDiskConfig(&dnsforward.Config{})
+	r.saves.Add(1)
+}
+
+// countSaves moves the number of saves since the last call to the evidence.
+func (r *runner) countSaves() {
+	if k := int(r.saves.Swap(0)); k > 0 {
+		r.c.Faults["config_save"] += k
+		r.saved = true
+	}
 }
 
 func entJSON(e Entry) map[string]string { return map[string]string{"domain": e.D, "answer": e.A} }
@@ -800,6 +836,9 @@ func (r *runner) query(op Op) error {
 	}
 	if ex.kind != oNotMatched {
 		r.c.Probe("matched_query")
+		if r.saved {
+			r.c.Probe("matched_query_after_save")
+		}
 	}
 	if len(ex.chain) >= 2 {
 		r.c.Probe("chain_2plus")
@@ -964,14 +1003,17 @@ func (r *runner) apply(op Op) error {
 		}
 	case "list":
 		// Checked below.
+	case "save":
+		r.save()
 	case "par":
 		return r.par(op)
 	default:
 		return fmt.Errorf("harness: unknown op %q", op.K)
 	}
 	kernel.Wait()
+	r.countSaves()
 	if op.K != "query" {
-		if op.K != "list" {
+		if op.K != "list" && op.K != "save" {
 			r.c.Fault("live_table_change")
 		}
 		return r.checkList()
@@ -1018,7 +1060,7 @@ func Run(t *testing.T, scAny any, c *kernel.Ctx) error {
 			r.wakeAt.Store(time.Now().Add(d).UnixNano())
 			return r.next
 		}
-		cfg := &dnsnode.Config{Dir: dir, Upstream: r.up, UpTimeout: 2 * time.Second, ListServer: env.NewListServer()}
+		cfg := &dnsnode.Config{Dir: dir, Upstream: r.up, UpTimeout: 2 * time.Second, ListServer: env.NewListServer(), OnModified: r.save}
 		cfg.Filtering = filtering.Config{
 			BlockingMode: filtering.BlockingModeDefault, BlockedResponseTTL: 10,
 			ProtectionEnabled: true, FilteringEnabled: true,
@@ -1066,7 +1108,7 @@ var _ = sort.Strings
 var Prop = &kernel.Property{
 	ID:    "C06",
 	Level: "exploration",
-	Rule: "seeded histories (rapid): a rewrite table of 1-10 entries over a tiny alphabet (9 exact names up to 4 labels, 5 wildcard patterns with 1-4 labels after '*.', answers: 3 IPv4 / 2 IPv6 values, the 'A' / 'AAAA' exceptions, the pattern itself, CNAMEs to table names and to names outside the table; explicit CNAME chains of 1-5 hops, some hops through wildcards, ending in a cycle to any member / a self reference / addresses / an exception / an outside name / nothing; duplicates; random order) loaded as configuration and then changed live through the real /control/rewrite/add, /update, /delete handlers; ops = queries A/AAAA/TXT/HTTPS over 6 transports for table names, wildcard-covered names and outside names (some in mixed case), some with an upstream fault on the resolution leg, interleaved with the table changes; DNS cache on in a third of the cases; op 'par' (mode D, ~7 % of the ops): 1-3 admin operations (add / delete / update through the real handlers), 1-4 queries and sometimes a listing run as concurrent tasks under the seeded cooperative scheduler (interleaved at lock boundaries, at the simulated upstream and, with the verbose log on, at every line a task writes to the process log), the admin operations arriving at a drawn point of a query's progress; in two thirds of these phases the queries ask names that resolve through CNAME entries and the admin operations hit entries on such a path with replacements further along it; " +
+	Rule: "seeded histories (rapid): a rewrite table of 1-10 entries over a tiny alphabet (9 exact names up to 4 labels, 5 wildcard patterns with 1-4 labels after '*.', answers: 3 IPv4 / 2 IPv6 values, the 'A' / 'AAAA' exceptions, the pattern itself, CNAMEs to table names and to names outside the table; explicit CNAME chains of 1-5 hops, some hops through wildcards, ending in a cycle to any member / a self reference / addresses / an exception / an outside name / nothing; duplicates; random order) loaded as configuration and then changed live through the real /control/rewrite/add, /update, /delete handlers; ops = queries A/AAAA/TXT/HTTPS over 6 transports for table names, wildcard-covered names and outside names (some in mixed case), some with an upstream fault on the resolution leg, interleaved with the table changes; every accepted table change is followed by a save of the configuration the way package home does it (the components' ConfigModified callback has the filtering module fill in the very configuration object it was created with), and op 'save' (~3 %) does the same at any other point; DNS cache on in a third of the cases; op 'par' (mode D, ~7 % of the ops): 1-3 admin operations (add / delete / update through the real handlers), 1-4 queries and sometimes a listing and / or a configuration save run as concurrent tasks under the seeded cooperative scheduler (interleaved at lock boundaries, at the simulated upstream and, with the verbose log on, at every line a task writes to the process log), the admin operations arriving at a drawn point of a query's progress; in two thirds of these phases the queries ask names that resolve through CNAME entries and the admin operations hit entries on such a path with replacements further along it; " +
 		"non-trivial = at least one executed query hit the table (reference outcome other than not_matched) AND at least one live table change or upstream fault happened; distinct = distinct scenario digests",
 	Gen: Gen,
 	New: func() any { return &Scenario{} },
@@ -1076,7 +1118,7 @@ var Prop = &kernel.Property{
 		return c.Probes["matched_query"] > 0 && f["live_table_change"]+f["upstream_error"]+f["upstream_timeout"]+f["upstream_servfail"]+f["upstream_slow"] > 0
 	},
 	Real: []string{"internal/filtering (DNSFilter.CheckHost, processRewrites, findRewrites, rewrite table, /control/rewrite/{list,add,update,delete} handlers)", "internal/dnsforward (request pipeline: filterDNSRequest, CNAME leg with question restoration, getCNAMEWithIPs)", "dnsproxy request path (handleDNSRequest, Resolve, cache, respond*)", "internal/client.Storage"},
-	Stub: []string{"upstream resolver (logs every question; answers derive from the name asked; seeded faults)", "client sockets (fake conns / response writers)", "query log and statistics (recorders)", "wall clock (synctest); the termination watchdog reads the kernel's monotonic clock and process CPU time", "process log sink (concurrent phases: verbose level, every line written by a task is a scheduling point; at most one task at a time is held up there)", "goroutine scheduling in concurrent phases (seeded cooperative scheduler on a copy of the tree whose lock operations go through the verifyield seam)"},
+	Stub: []string{"upstream resolver (logs every question; answers derive from the name asked; seeded faults)", "client sockets (fake conns / response writers)", "query log and statistics (recorders)", "configuration file (the save collects the configuration from the filtering module and the DNS server the way home's config.write does, into the same filtering.Config object; nothing is encoded or written)", "wall clock (synctest); the termination watchdog reads the kernel's monotonic clock and process CPU time", "process log sink (concurrent phases: verbose level, every line written by a task is a scheduling point; at most one task at a time is held up there)", "goroutine scheduling in concurrent phases (seeded cooperative scheduler on a copy of the tree whose lock operations go through the verifyield seam)"},
 	Assumptions: []string{
 		"the reference resolution (ref.go) is the reading of AGHTechDoc.md §Rewrites + the statement: CNAME over address entries, exact over wildcard, longest wildcard first, pass-through exceptions, matched-without-value => empty NOERROR",
 		"shapes the documentation leaves open are only held to S1 (termination) and S2 (no address outside the table for the resolved name and family): several CNAME targets at one pattern, one wildcard pattern with CNAME and address values, an exception and a value of the same family at one pattern, an entry of the other family shadowing a less specific entry of the asked family, a pass-through exception met at a later hop of a CNAME chain, CNAME cycles",
@@ -1087,7 +1129,7 @@ var Prop = &kernel.Property{
 		"concurrent phase: with the cache on, an overlapped query may be served what another query of the same phase fetched; upstream faults there are limited to error and SERVFAIL (the clock stands still); non-termination of a phase = 10 s wall + 5 s CPU",
 		"non-termination is detected by a 2 s wall+CPU budget per query (60 s simulated); the worker process then ends and the driver takes the class from the replay of the running scenario (no shrinking for that class)",
 	},
-	FaultKinds: []string{"upstream_error", "upstream_timeout", "upstream_servfail", "upstream_slow", "live_table_change", "concurrent_table_change"},
+	FaultKinds: []string{"upstream_error", "upstream_timeout", "upstream_servfail", "upstream_slow", "live_table_change", "concurrent_table_change", "config_save"},
 	ProbeNames: []string{oNotMatched, oPassExc, oLocal, oEmpty, oCnameUp, oUnspecified, "matched_query",
 		"cname_beats_address", "exact_shadows_wildcard", "specific_wildcard_wins", "wildcard_cname", "wildcard_address", "self_reference", "family_exception",
 		"wildcard_with_other_family_exception", "cycle", "cycle_through_qname", "cycle_not_through_qname", "chain_2plus", "chain_4plus", "chain_through_wildcard", "local_via_chain", "empty_via_chain", "unspecified_exception_at_later_hop",
@@ -1095,5 +1137,5 @@ var Prop = &kernel.Property{
 		"fault_on_cname_leg", "upstream_failed_leg", "served_from_cache", "duplicate_entries",
 		"table_add", "table_delete", "table_update", "delete_missing", "update_missing", "delete_removed_duplicates",
 		"sched_steps", "sched_switches", "par_log_yields", "par_table_changed", "par_three_or_more_versions", "par_chain_query",
-		"par_query_discriminates", "par_query_saw_old", "par_query_saw_new", "par_query_saw_intermediate"},
+		"matched_query_after_save", "par_save_task", "par_query_discriminates", "par_query_saw_old", "par_query_saw_new", "par_query_saw_intermediate"},
 }
